@@ -178,16 +178,17 @@ def translate_c_to_sympy(source_circuit):
 
     # Map the gate information properly.
     for gate in reversed(source_circuit._gates):
-        # If the parameter is a string, we use it as a variable.
-        if gate.parameter and isinstance(gate.parameter, str):
-            gate.parameter = symbols(gate.parameter, real=True)
+        # If the parameter is a string, we use it as a variable (without modifying the gate of the source circuit).
+        parameter = gate.parameter
+        if parameter and isinstance(parameter, str):
+            parameter = symbols(parameter, real=True)
 
         if gate.name in {"H", "X", "Y", "Z"}:
             target_circuit *= GATE_SYMPY[gate.name](gate.target[0])
         elif gate.name in {"T", "S"} and gate.parameter == "":
             target_circuit *= GATE_SYMPY[gate.name](gate.target[0])
         elif gate.name in {"PHASE", "RX", "RY", "RZ"}:
-            target_circuit *= GATE_SYMPY[gate.name](gate.target[0], gate.parameter)
+            target_circuit *= GATE_SYMPY[gate.name](gate.target[0], parameter)
         elif gate.name in {"CNOT", "CX"} and len(gate.control) > 1:
             target_circuit *= controlled_gate(GATE_SYMPY["X"])(tuple(gate.control), gate.target[0])
         elif gate.name in {"CNOT", "CX"}:
@@ -197,7 +198,7 @@ def translate_c_to_sympy(source_circuit):
         elif gate.name in {"SWAP"}:
             target_circuit *= GATE_SYMPY[gate.name](gate.target[0], gate.target[1])
         elif gate.name in {"CRX", "CRY", "CRZ", "CPHASE"}:
-            target_circuit *= GATE_SYMPY[gate.name](tuple(gate.control), gate.target[0], gate.parameter)
+            target_circuit *= GATE_SYMPY[gate.name](tuple(gate.control), gate.target[0], parameter)
         else:
             raise ValueError(f"Gate '{gate.name}' not supported on backend SYMPY")
 
